@@ -4,10 +4,20 @@ use serde_json::Value;
 use speclib::report::{Ctx, Violation};
 
 pub mod c01;
+pub mod c05;
+pub mod c18;
+pub mod c14;
+pub mod c13;
+pub mod c06;
 
 pub fn run(ctx: &Ctx) -> i32 {
     match ctx.id.as_str() {
         "C01" => c01::run(ctx),
+        "C05" => c05::run(ctx),
+        "C18" => c18::run(ctx),
+        "C14" => c14::run(ctx),
+        "C13" => c13::run(ctx),
+        "C06" => c06::run(ctx),
         other => {
             println!("MACHINERY-ERROR unknown property {other}");
             2
@@ -18,6 +28,11 @@ pub fn run(ctx: &Ctx) -> i32 {
 fn replay_one(id: &str, w: &Value) -> Result<Vec<Violation>, String> {
     match id {
         "C01" => Ok(c01::replay(w)),
+        "C05" => Ok(c05::replay(w)),
+        "C18" => Ok(c18::replay(w)),
+        "C14" => Ok(c14::replay(w)),
+        "C13" => Ok(c13::replay(w)),
+        "C06" => Ok(c06::replay(w)),
         other => Err(format!("unknown property {other}")),
     }
 }
